@@ -117,9 +117,16 @@ class WrappedInstance:
     This is needed to clean it up from the cache after the instance reference died.
     """
 
+    instance_id: int = field(init=False, default=None, repr=False)
+    """
+    The id of the instance.
+    This is needed to clean it up from the instance index after the instance reference died.
+    """
+
     def __post_init__(self, instance: Symbol):
         self.instance_reference = weakref.ref(instance)
         self.instance_type = type(instance)
+        self.instance_id = id(instance)
 
     @property
     def instance(self) -> Optional[Symbol]:
@@ -227,11 +234,21 @@ class SymbolGraph(metaclass=SingletonMeta):
 
         :param wrapped_instance: The instance to remove.
         """
-        self._instance_index.pop(id(wrapped_instance.instance), None)
+        # the instance may be dead already and its id reused by a newer instance
+        if self._instance_index.get(wrapped_instance.instance_id) is wrapped_instance:
+            del self._instance_index[wrapped_instance.instance_id]
         self._class_to_wrapped_instances[wrapped_instance.instance_type].remove(
             wrapped_instance
         )
-        self._instance_graph.remove_node(wrapped_instance.index)
+        # node indices are reused by the graph, so forget the relations of this node
+        index = wrapped_instance.index
+        for source, target, relation in list(
+            self._instance_graph.in_edges(index)
+        ) + list(self._instance_graph.out_edges(index)):
+            self._relation_index.get(relation.wrapped_field, set()).discard(
+                (source, target)
+            )
+        self._instance_graph.remove_node(index)
 
     def remove_dead_instances(self):
         for node in self._instance_graph.nodes():
